@@ -1077,10 +1077,11 @@ class Interp:
 
     def call_repo(self, f, args, kwargs, node):
         key = (f.module.name if f.module else None, f.qualname)
+        wants_inline = key in self.inline or (f.module and f.qualname.split(".")[-1] in self.inline)
         c = self.reg.lookup(key, self.contract)
-        if c is not None and key not in self.inline_stack():
+        if c is not None and not wants_inline:
             return self.apply_contract(c, f, args, kwargs, node)
-        if f.closure is not None or key in self.inline or (f.module and f.qualname.split(".")[-1] in self.inline):
+        if f.closure is not None or wants_inline:
             return self.run_function(f, args, kwargs)
         raise NoContract(f"NO-CONTRACT callee {key[0]}.{key[1]} (line {getattr(node, 'lineno', '?')})")
 
